@@ -8,7 +8,7 @@ ids="$@"; [ -z "$ids" ] && ids=$(ls seeded)
 miss=0
 for id in $ids; do
   prop=$(python3 -c "import json;print(json.load(open('seeded/$id/meta.json'))['property'])")
-  out=$(MUT_LINES=3 tools/mut.sh seeded/$id/patch.diff $prop 2>&1 | grep -E "^(VIOLATION|HELD|INCONCLUSIVE)" | head -1 | cut -d' ' -f1)
+  out=$(MUT_LINES=60 tools/mut.sh seeded/$id/patch.diff $prop 2>&1 | grep -E "^(VIOLATION|HELD|INCONCLUSIVE)" | head -1 | cut -d' ' -f1)
   echo "$id $prop ${out:-NO-VERDICT}"
   [ "$out" = "VIOLATION" ] || miss=$((miss+1))
 done
